@@ -504,7 +504,43 @@ def check_added_arm_model(ctx):
     ctx.floor("R2.6", "constructor arguments of added-arm models compared", n, 9)
 
 
+# ------------------------------------------------------------------------------------------------ R2.7
+def check_small_variance(ctx):
+    """Standardisation divides by scaler.scale_. The only features exempted from it (divisor forced to 1) are those
+    whose divisor itself is below the tolerance: the mask must be computed from the very array it is applied to."""
+    from .pattern import find, find_all
+    prog = ctx.prog
+    fn = prog.modules["linear"].functions.get("fix_small_variance")
+    if fn is None:
+        ctx.ok("R2.7", "no divisor of the standardisation is overridden (fix_small_variance absent)",
+               construct="fix_small_variance", where="mabwiser/linear.py")
+        return
+    ctx.saw_fn(fn)
+    sc = fn.params[0]
+    forced = [(n, b) for n, b in find_all("%s.scale_[_M_] = _EV_" % sc, fn.node)]
+    if not forced:
+        ctx.ok("R2.7", "fix_small_variance does not override any divisor", fn.node, fn,
+               construct="def fix_small_variance")
+        return
+    for n, b in forced:
+        mask = b["_M_"]
+        from .c15 import _inline
+        cmp_ = _inline(fn.node, ast.Name(id=mask, ctx=ast.Load()))
+        defs = [x for x in ast.walk(fn.node) if isinstance(x, ast.Assign) and len(x.targets) == 1 and
+                isinstance(x.targets[0], ast.Name) and x.targets[0].id == mask]
+        ok = isinstance(cmp_, ast.Compare) and len(cmp_.ops) == 1 and \
+            isinstance(cmp_.ops[0], (ast.LtE, ast.Lt)) and \
+            ast.unparse(cmp_.left) in ("%s.scale_" % sc, "np.abs(%s.scale_)" % sc) and \
+            ast.unparse(cmp_.comparators[0]) == "SCALER_TOLERANCE"
+        ctx.check(ok, "R2.7", "the features exempted from standardisation are those whose divisor scale_ is within "
+                  "the tolerance", defs[0] if defs else n, fn,
+                  "mask `%s`: the divisor scale_ is replaced by 1 for features selected by another statistic (or "
+                  "another bound), so features that should be standardised are only centred" %
+                  (ast.unparse(cmp_),), construct="def fix_small_variance (mask)")
+
+
 def check(ctx):
+    ctx.rule("R2.7", "divisors of the standardisation are overridden only where the divisor itself is ~0")
     ctx.rule("R2.6", "the model of an arm added later is built with the same hyper-parameters as the others")
     ctx.rule("R2.5", "a model's predict does not modify the query matrix shared by all arms")
     ctx.rule("R2.1", "shape safety for all (d, m) in {1, >1}^2; no two-sided broadcast; predict returns (m,)")
@@ -517,3 +553,4 @@ def check(ctx):
     check_selectors(ctx, "R2.4")
     check_query_unmodified(ctx)
     check_added_arm_model(ctx)
+    check_small_variance(ctx)
